@@ -132,7 +132,7 @@ class ConcreteCtx:
         return a < b + self._slack(a, b)
 
     def within(self, a, b, tol):
-        a, b = float(a), float(b)
+        a, b, tol = float(a), float(b), float(tol)
         if math.isnan(a) or math.isnan(b):
             return False
         return abs(a - b) <= tol + self._slack(a, b)
